@@ -214,11 +214,11 @@ def grid_axioms(atoms, depth_terms):
             out.append(z3.Implies(z3.And(grid(xs[i], p), xs[i] > 0), xs[i] >= u))
             out.append(z3.Implies(z3.And(grid(xs[i], p), xs[i] < 0), xs[i] <= -u))
         # uniqueness is quadratic: with many atoms only pair the rounded terms themselves with every atom
-        if len(xs) <= 14:
+        if len(xs) <= 10:
             pairs = [(xs[i], xs[j]) for i in range(len(xs)) for j in range(i + 1, len(xs))]
         else:
-            qs = [x for x in xs if z3.is_app(x) and x.decl().name() in ("q_down", "q_up", "q_he")][:10]
-            pairs = [(a, b) for a in qs for b in xs if not a.eq(b)][:400]
+            qs = [x for x in xs if z3.is_app(x) and x.decl().name() in ("q_down", "q_up", "q_he")][:8]
+            pairs = [(qs[i], qs[j]) for i in range(len(qs)) for j in range(i + 1, len(qs))]
         for a, b in pairs:
             out.append(z3.Implies(z3.And(grid(a, p), grid(b, p), a - b < u, b - a < u), a == b))
     return out
@@ -260,29 +260,34 @@ def linear_grid_axioms(eqs, atoms):
         ts = list(uniq.values())
         if 2 <= len(ts) <= 4:
             lin.append(ts)
-    byp = {}
+    # precisions are often written in several syntactically different but equal ways: eligibility ignores which
+    # precision term an atom carries, and an instance is emitted for every distinct precision term (few)
+    ps = {}
+    have = set()
     for a in atoms.values():
-        e = byp.setdefault(a.arg(1).get_id(), (a.arg(1), set()))
-        e[1].add(a.arg(0).get_id())
+        ps.setdefault(a.arg(1).get_id(), a.arg(1))
+        have.add(a.arg(0).get_id())
+    plist = list(ps.values())[:6]
     out = []
     done = set()
     for _round in range(4):
         grew = False
-        for pid, (p, have) in list(byp.items()):
-            for k, ts in enumerate(lin):
-                if (pid, k) in done:
-                    continue
-                missing = [t for t in ts if t.get_id() not in have]
-                if len(missing) <= 1 and len(missing) < len(ts):
-                    done.add((pid, k))
+        for k, ts in enumerate(lin):
+            if k in done:
+                continue
+            missing = [t for t in ts if t.get_id() not in have]
+            if len(missing) <= 1 and len(missing) < len(ts):
+                done.add(k)
+                for p in plist:
                     for i in range(len(ts)):
                         others = [grid(ts[j], p) for j in range(len(ts)) if j != i]
                         out.append(z3.Implies(z3.And(*others), grid(ts[i], p)))
                     for t in missing:
-                        have.add(t.get_id())
                         na = grid(t, p)
                         atoms[na.get_id()] = na
-                        grew = True
+                for t in missing:
+                    have.add(t.get_id())
+                    grew = True
         if not grew:
             break
     return out
@@ -358,8 +363,9 @@ def _pair_terms(fs):
     return out
 
 
-def instantiate(formulas, rounds=2):
-    """returns extra ground axiom instances for the prelude symbols occurring in formulas"""
+def instantiate(formulas, rounds=2, lite=False):
+    """returns extra ground axiom instances for the prelude symbols occurring in formulas.
+    lite=True leaves out the rounding / grid axioms (a weaker but much smaller query, tried first)"""
     extra = []
     seen = set()
     done = set()
@@ -370,12 +376,12 @@ def instantiate(formulas, rounds=2):
         for f in todo:
             _collect(f, seen, apps)
         new = []
-        for nm in ("q_down", "q_up", "q_he"):
+        for nm in (("q_down", "q_up", "q_he") if not lite else ()):
             for tid, t in apps.get(nm, {}).items():
                 if ("q", tid) not in done:
                     done.add(("q", tid))
                     new += q_axioms(t)
-        for tid, t in apps.get("unit", {}).items():
+        for tid, t in (apps.get("unit", {}).items() if not lite else ()):
             if ("u", tid) not in done:
                 done.add(("u", tid))
                 new += unit_axioms(t)
@@ -405,6 +411,8 @@ def instantiate(formulas, rounds=2):
             extra.append(z3.Implies(z3.ForAll([jv], z3.And(z3.Select(a.arg(0), jv) == z3.Select(b.arg(0), jv),
                                                            z3.Implies(z3.Select(a.arg(0), jv), z3.Select(a.arg(1), jv) == z3.Select(b.arg(1), jv)))),
                                     a == b))
+    if lite:
+        return extra
     # grid closure over all grid atoms seen in formulas + extra: a small fixpoint of
     #   (a) congruence helper: for an equation  t == e  between reals where grid(t, p) is an atom, e becomes an atom too
     #   (b) structural closure (sum / difference / negation / ite / integer multiple) which introduces atoms for sub-terms
@@ -424,7 +432,7 @@ def instantiate(formulas, rounds=2):
             for x, y in ((lhs, rhs), (rhs, lhs)):
                 for p in byterm.get(x.get_id(), []):
                     na = grid(y, p)
-                    if na.get_id() not in atoms and len(atoms) < 300:
+                    if na.get_id() not in atoms and len(atoms) < 120:
                         atoms[na.get_id()] = na
         g = grid_axioms(list(atoms.values()), None)
         apps2 = {}
@@ -432,7 +440,7 @@ def instantiate(formulas, rounds=2):
         for f in g:
             _collect(f, seen3, apps2)
         for a in apps2.get("grid", {}).values():
-            if a.get_id() not in atoms and len(atoms) < 300:
+            if a.get_id() not in atoms and len(atoms) < 120:
                 atoms[a.get_id()] = a
         if len(atoms) == n0:
             break
